@@ -31,7 +31,12 @@ func (e *kvElection) logWithContext(ctx context.Context) []zap.Field {
 		zap.String("bucket", e.cfg.Bucket),
 	}
 
-	// Add correlation ID if present in context
+	// Add correlation ID if present in context. The election's own context
+	// is nil before Start and after StopWithContext, and background
+	// goroutines may still log through it at that point.
+	if ctx == nil {
+		return fields
+	}
 	if correlationID := ctx.Value("correlation_id"); correlationID != nil {
 		fields = append(fields, zap.String("correlation_id", correlationID.(string)))
 	}
